@@ -16,7 +16,8 @@ Inductive gstmt : Type :=
                                                         the initialiser is emitted before the GIf           *)
 | GSwitch (tag : string) (cases : list (list string * list gstmt))   (* switch tag { case labels: body } *)
 | GLoop (body : list gstmt)                          (* for { body }                                         *)
-| GLoopN (n : Z) (body : list gstmt)                 (* for i := 0; i < n; i++ { body }                      *)
+| GLoopN (n : Z) (body : list gstmt)                 (* for i := 0; i < n; i++ { body }    (n a literal)      *)
+| GFor (header : string) (body : list gstmt)         (* for init; cond; post { body }      (header as text)   *)
 | GReturn (results : string)                         (* return results                                       *)
 | GBranch (what : string)                            (* break / continue / goto                              *)
 | GOpaque                                            (* a case body that is not expanded                     *)
